@@ -452,6 +452,18 @@ func (c *Ctx) c07MeshCase(oob bool) {
 }
 
 func runC07(c *Ctx) {
+	// known finding, replayed on the real code every run: a mesh that stores no normals reads back with
+	// no normal attribute at all (ReadMesh only attaches normals if some record has a non-zero one)
+	{
+		m := modeling.NewTriangleMesh([]int{0, 1, 2}).SetFloat3Attribute(modeling.PositionAttribute,
+			[]vector3.Float64{vector3.New(0., 0., 0.), vector3.New(1., 0., 0.), vector3.New(0., 1., 0.)})
+		var buf bytes.Buffer
+		if err := stl.WriteMesh(&buf, m); err == nil {
+			if _, back := c07ReadMeshAns(buf.Bytes()); back != nil {
+				c.Emit("c07.holds.geometric_normal_when_none_stored_witness", c07Mesh(m)+" "+c07Mesh(*back), "true")
+			}
+		}
+	}
 	// fixed small cases first: empty file, one record, every cut point of a two-record file
 	{
 		var buf bytes.Buffer
